@@ -249,12 +249,22 @@ def generate_c09(rng, tier='quick', stack=None, **kw):
     tt += spacing * rng.choice([0.5, 1, 1, 1.5])
     i += 1
   scn['ops'] = ops
-  if rng.random() < 0.25:
-    faults.append({'t': round(rng.uniform(0.2, end * 0.7), 3), 'do': 'close'})
+  scn['horizon_extra'] = 4.0
+  if rng.random() < 0.3 and ops:
+    # close the client while a member is (often) down and requests are in flight
+    downs = [f for f in faults if f['do'] in ('crash', 'crash_blackhole', 'refuse')]
+    lo = downs[0]['t'] if downs and rng.random() < 0.7 else 0.2
+    near = [o for o in ops if lo <= o['t'] <= lo + 30] or ops
+    o = rng.choice(near)
+    k = ops.index(o)
+    for oo in ops[max(0, k - 2):k + 1]:
+      oo['svc'] = {'delay': rng.choice([0.05, 0.2, 0.5])}
+    faults.append({'t': round(o['t'] + rng.choice([0.0005, 0.003, 0.02]), 4), 'do': 'close'})
+    scn['horizon_extra'] = res['max_wait_interval'] + 6.0
+    del ops[k + 8:]
   faults.sort(key=lambda f: f['t'])
   scn['faults'] = faults
   scn['directives'] = []
-  scn['horizon_extra'] = 4.0
   scn['c09'] = {'spacing': spacing, 'last_heal': last_heal, 'end': end}
   return scn
 
